@@ -303,7 +303,13 @@ func c12Exec(w *fw.Worker, c fw.Case) fw.Result {
 			}
 		}
 		cnt = env.rec.Counts()
-		if pending := cnt["jump.to_queue"] - cnt["mark.fwd_jump"]; pending > 0 && cnt["mark.close"] == 0 {
+		if pending := cnt["jump.to_queue"] - cnt["mark.fwd_jump"]; pending <= 0 && cnt["mark.close"] == 0 && cnt["mark.input_closed"] > 0 {
+			// nothing is parked any more, the input has ended, and the termination protocol
+			// (signals between mark and jumps) does not move either: the stream never closes
+			detail["events"] = cnt
+			r := fw.ViolatedR("stall", fmt.Sprintf("certified stall: the input of the mark has ended, no traveler is left in the cycle, and no signal was sent or returned during 15 s while the result stream stays open (%s on %s)", cc.Name, cc.Graph), detail)
+			return &r
+		} else if pending > 0 && cnt["mark.close"] == 0 {
 			detail["events"] = cnt
 			r := fw.ViolatedR("stall", fmt.Sprintf("certified stall: %d travelers are parked between jump and mark, the result stream is open, and no loop event happened during 15 s (%s on %s)", pending, cc.Name, cc.Graph), detail)
 			return &r
